@@ -469,7 +469,7 @@ func propC02(c *Ctx) {
 			if rtxIdx >= 0 && lerr != nil {
 				rtx := m.tx[rtxIdx]
 				isNil, _ := nilTestEdges(lerr)
-				_, notReorg := errorsIsEdges(lerr, w.Global("shovel", "ErrReorg"))
+				_, notReorg := reorgEdgesOf(ld, w.Global("shovel", "ErrReorg"))
 				for i, cm := range m.invokesOn(rtx, "Commit") {
 					if _, isDefer := cm.(*ssa.Defer); isDefer {
 						continue
